@@ -228,6 +228,7 @@ func genC12(r *Rng, tier string) *World {
 				op.Opts = append(op.Opts, OptSpec{K: "ctx", Key: k, Val: VS(k + "-v" + strconv.Itoa(r.Intn(3)))})
 			}
 		}
+		op.Rev = r.P(0.35)
 		ops = append(ops, op)
 	}
 	w.Tasks = [][]Op{ops}
